@@ -51,6 +51,15 @@ REGISTRY = {
     "C07": {"jobs": LEMMAS_BER + ASN1_FUNCS, "native": "native_c07.py",
             "assumptions": ["len(x) < 2^63 for every octet string (CPython sys.maxsize); INTEGER contents of at most 2^40 octets",
                             "inlined without a contract of their own: ASN1Tag.universal_tag, ASN1Reader.__init__/__bool__/read_enumerated, ASN1Writer.__init__/__enter__/push_sequence/push_set (executed symbolically at every call site)"]},
+    "C01": {"jobs": [], "native": "native_messages.py", "level": "other",
+            "explanation": "Contract unpack(pack(m)) == m (reader exhausted, re-encoding identical; known controls may expose their raw value), evaluated over a stated bounded set of messages of all nine kinds. "
+                           "The byte layer below (every TLV written is read back identically, all integers) is proved under C07; the per-message node-level contracts are not discharged deductively yet."},
+    "C03": {"jobs": [], "native": "native_messages.py", "level": "other",
+            "explanation": "Contract rfc4511.decode(m.pack(), strict) == abstract(m) against an independent RFC 4511 / X.690 codec (specs/rfc4511.py, written from Appendix B), evaluated over the bounded message set. "
+                           "Exact identifier octets, minimal definite lengths, minimal INTEGERs and TRUE = FF of every primitive are proved for all values under C07 (tlv_of, tc, minimal_tc)."},
+    "C04": {"jobs": [], "native": "native_messages.py", "level": "other",
+            "explanation": "Every definite length form and TRUE = any non-zero octet are proved for all inputs at the byte layer (C07: _read_asn1_header equals the X.690 denotation; _read_asn1_boolean). "
+                           "At the message layer the contract unpack(encode_with_freedoms(abstract(m))) == m is evaluated over the bounded message set x 7 freedom combinations (extra length octets at every node, TRUE as 01/80/7F, explicit defaults, unknown trailing elements)."},
     "C02": {"jobs": RECEIVE + LEMMAS_FRAMING + FRAME_READERS + [j("asn1:ASN1Reader.read_octet_string")], "native": "native_receive.py",
             "assumptions": ["decoding the content of one envelope is a deterministic function of those octets and the options (dec_content; C19 supports it)",
                             "the 'same state as a single delivery' clause composes the proved facts on paper: receive returns msgs(R ++ data) and keeps residue(R ++ data); "
